@@ -47,7 +47,12 @@ def main():
     wt = "/tmp/sv/" + name
     os.makedirs("/tmp/sv", exist_ok=True)
     sh("git -C /repo worktree remove --force %s" % wt)
-    rc, out = sh("git -C /repo worktree add --detach %s HEAD" % wt)
+    for _try in range(20):
+        rc, out = sh("git -C /repo worktree add --detach %s HEAD" % wt)
+        if not rc:
+            break
+        __import__("time").sleep(0.5)
+        sh("git -C /repo worktree remove --force %s" % wt)
     if rc:
         print("cannot create worktree:", out)
         return 2
